@@ -193,3 +193,8 @@ Proof.
   rewrite Hb'. f_equal. symmetry.
   apply (build_sharded_order_independent size lg Hperm H H_wf H_len entries entries' r r' He Hnd Hp Hb Hb').
 Qed.
+
+(* non-vacuity: the demo directory (colliding names, fanout 8) builds, and builds identically in reverse order *)
+Example demo_order_independent :
+  exists r, build_sharded 8 HashMurmur3 demo_entries = Ok r /\ build_sharded 8 HashMurmur3 (rev demo_entries) = Ok r.
+Proof. eexists. split; vm_compute; reflexivity. Qed.
